@@ -17,7 +17,7 @@ def features(case, run, val):
 
 def case_gen(rng, k):
     case = gen.gen_case(rng, groups=(k % 3 == 0), asyncs=True, clean=1.0, maxn=4)
-    if k % 7 == 6 and case['n'] >= 2:
+    if k % 7 == 6 and case['n'] >= 2 and not any(e.get('async') and e['a'] == 0 and e['b'] == 1 for e in case['edges']):
         # a set_data towards a simulator without async_requests connection must be refused
         case['beh'][1].setdefault('set_data', {})['0,0'] = [['S0', 'i', 'setX@0']]
         case['expect_refusal'] = True
